@@ -13,16 +13,16 @@ CFG = {
     "engine": "E4 probes (probe-threads with a counting global allocator around the repository's Dlmalloc, 3 link modes x debug/release) + E5 strace log",
     "package": "c05", "bin": "c05",
     "pre": _pre,
-    "profiles": ["release"], "workers": 12,
+    "profiles": ["release"], "workers": 12,   # the driver only orchestrates; the code under test lives in the six probe builds
     "technique": ("property-based testing of a no-libc probe process: generated histories of thread batches over every (return|panic) x disposition ordering, "
                   "judged by a counting allocator (exactly-once free, layouts, who freed), per-thread stack canaries, /proc/self mapped-memory figures and a "
                   "per-tid reading of the strace log (munmap of the own stack, set_tid_address)"),
     "rule": ("A case = one probe process (quick tier: 3 of the 6 link modes by seed) fed a history of 1..5 batches of 1..64 thread specs (result type from a family "
              "of 9 incl. over-aligned and heap-owning, return|panic, delays in {0, spin 10^3..10^6, sleep <= 2 ms}, disposition join | drop now | drop after delay | "
              "drop while finishing (equal delays +- jitter) | keep until the end then join). After every batch, once /proc/self/status shows one thread: (2) no double "
-             "free / free of a non-live pointer / layout mismatch / free of a baseline block, blocks of the batch still live = at most one block <= closure size + 16 "
+             "free / free of a non-live pointer / layout mismatch / free of a baseline block, no byte of a freed block written before the last thread is gone (frees of a batch are quarantined and poisoned, the poison is verified after the drain: catches the kernel's clear-tid write and a result published into a freed join state), blocks of the batch still live = at most one block <= closure size + 16 "
              "per panicked thread out of its own spawn call; (4) the word each thread wrote on its own stack must not be readable with its value any more, VmSize and the "
-             "sum of /proc/self/maps equal the baseline taken after the allocator reserve; (5) no crash, no main-thread abort, no definitive deadlock. Sub-check "
+             "sum of /proc/self/maps equal the baseline taken after the allocator reserve; (5) no crash, no main-thread abort, no definitive deadlock. Sub-checks fixed / fixed-min run the complete (9 result types x return|panic x 5 dispositions) matrix with and without strace and the two one-thread histories 'Vec<u8> result, handle dropped' (one per flag-race outcome). Sub-check "
              "release-strace additionally reads the strace log per tid: (1) every cloned thread unmaps exactly its own 2 MiB stack exactly once, nobody else does; "
              "(3) set_tid_address(0) is called by exactly the threads that freed their own join state (the block containing child_tidptr). "
              "Non-trivial = batch in which both outcomes of the flag race occurred (some join states freed by the handle side, some by the thread); distinct by hash of the case."),
@@ -35,6 +35,7 @@ CFG = {
                          "release:panic x join", "release:panic x drop-now", "release:panic x drop-after-delay", "release:panic x drop-while-finishing",
                          "release:both-flag-outcomes-in-one-batch", "release:panicked-thread-left-its-closure", "release:history-of-3-or-more-batches",
                          "release-strace:strace-log-judged", "release-strace:set_tid_address(0) by the thread that lost the flag race",
-                         "release-strace:no set_tid_address for a thread whose handle side frees", "release-strace:stack munmaps == threads created"],
+                         "release-strace:no set_tid_address for a thread whose handle side frees", "release-strace:stack munmaps == threads created", "fixed:strace-log-judged", "fixed:both-flag-outcomes-in-one-batch",
+                         "fixed-min:flag-race: handle dropped first, thread frees the join state", "fixed-min:flag-race: thread finished first, handle frees the join state"],
     "timeout_quick": 600, "timeout_thorough": 7200,
 }
